@@ -31,7 +31,8 @@ def _is_value(f, o, P0):
 
 
 def aborting_wrappers(mod):
-    """functions whose pointer result is a RAW allocation that is non-NULL on every path to return"""
+    """functions whose pointer result is a RAW allocation that is non-NULL on every path to return: the result is tested, from the NULL edge of every such test
+    no return is reachable (all those paths end in a no-return call), and no return is reachable from the allocation without passing a test"""
     out = set()
     for f in mod.funcs.values():
         if not f.ret.endswith("*"):
@@ -42,9 +43,26 @@ def aborting_wrappers(mod):
         c = calls[0]
         P0 = (("C", c.callee, c.i),)
         rets = f.rets()
-        if not rets or not all(r.ops and _is_value(f, r.ops[0], P0) for r in rets):
+        if not rets:
             continue
-        if not _unchecked_exits(f, c, P0):
+        nonnull, tests = _check_edges(f, P0)
+        if not tests:
+            continue
+        noret = lambda x: x.op == "call" and (x.callee or "") in mod.noreturn
+        ok = True
+        for b in tests:
+            t = f.blocks[b].insts[-1]
+            for tg in t.tgt:
+                if (b, tg) in nonnull:
+                    continue
+                r = f.reach([f.blocks[tg].insts[0]], stop=noret, include_start=True)
+                if any(f.inst[i].op == "ret" for i in r):
+                    ok = False            # the NULL edge can reach a return: the wrapper may hand NULL (or anything) back
+        testbr = {f.blocks[b].insts[-1].i for b in tests}
+        r0 = f.reach([c], stop=lambda x: x.i in testbr or noret(x))
+        if any(f.inst[i].op == "ret" for i in r0):
+            ok = False
+        if ok:
             out.add(f.name)
     return out
 
